@@ -392,4 +392,506 @@ theorem toFunsor_rejects_unnamed (x : Arr α) (bs es : List Nat) (dtype : Option
   simp only [reshape, hne, if_false]
 
 
+/-! ### reshape-equivalence, identity permutation, sorting -/
+
+/-- `r` has the same row-major buffer as `x` (possibly under another shape). -/
+def IsReshapeOf (r x : Arr α) : Prop :=
+  prod r.shape = prod x.shape ∧
+    ∀ idx, inb r.shape idx = true → r.get idx = x.get (unravel x.shape (ravel r.shape idx))
+
+theorem reshape_isReshape (a r : Arr α) (s : List Nat) (h : reshape a s = .ok r) :
+    r.shape = s ∧ IsReshapeOf r a := by
+  unfold reshape at h
+  split at h
+  · rename_i hp
+    cases h
+    exact ⟨rfl, hp, fun _ _ => rfl⟩
+  · cases h
+
+theorem isReshape_trans (a b c : Arr α) (h1 : IsReshapeOf b a) (h2 : IsReshapeOf c b) :
+    IsReshapeOf c a := by
+  refine ⟨h2.1.trans h1.1, ?_⟩
+  intro idx hidx
+  have hlt : ravel c.shape idx < prod b.shape := by rw [← h2.1]; exact ravel_lt _ _ hidx
+  rw [h2.2 idx hidx, h1.2 _ (inb_unravel _ _ hlt), ravel_unravel _ _ hlt]
+
+theorem isReshape_toFlat (r x : Arr α) (h : IsReshapeOf r x) : r.toFlat = x.toFlat := by
+  unfold Arr.toFlat
+  rw [h.1]
+  apply List.map_congr_left
+  intro k hk
+  have hk' : k < prod r.shape := by rw [h.1]; simpa using hk
+  rw [h.2 _ (inb_unravel _ _ hk'), ravel_unravel _ _ hk']
+
+theorem pos_lt_of_mem {β : Type} [DecidableEq β] (a : β) : ∀ (l : List β), a ∈ l → pos a l < l.length
+  | [], h => by simp at h
+  | b :: l, h => by
+      simp only [pos]
+      by_cases hb : b = a
+      · simp [hb]
+      · simp only [hb, if_false, List.length_cons]
+        have : a ∈ l := by
+          simp only [List.mem_cons] at h
+          rcases h with h | h
+          · exact absurd h.symm hb
+          · exact h
+        have := pos_lt_of_mem a l this
+        omega
+
+theorem getElem_pos {β : Type} [DecidableEq β] (a : β) : ∀ (l : List β) (h : pos a l < l.length),
+    l[pos a l] = a
+  | [], h => by simp at h
+  | b :: l, h => by
+      by_cases hb : b = a
+      · simp [pos, hb]
+      · simp only [pos, hb, if_false, List.length_cons] at h ⊢
+        simp only [List.getElem_cons_succ]
+        exact getElem_pos a l (by omega)
+
+theorem pos_getElem {β : Type} [DecidableEq β] : ∀ (l : List β) (i : Nat) (h : i < l.length),
+    l.Nodup → pos l[i] l = i
+  | [], i, h, _ => by simp at h
+  | b :: l, 0, _, _ => by simp [pos]
+  | b :: l, i + 1, h, hn => by
+      simp only [List.nodup_cons] at hn
+      have hi : i < l.length := by simpa using h
+      simp only [List.getElem_cons_succ, pos]
+      have hmem : l[i] ∈ l := List.getElem_mem _
+      have hb : b ≠ l[i] := fun e => hn.1 (e ▸ hmem)
+      simp only [hb, if_false]
+      rw [pos_getElem l i hi hn.2]
+
+theorem map_pos_self {β : Type} [DecidableEq β] (l : List β) (hn : l.Nodup) :
+    l.map (fun d => pos d l) = List.range l.length := by
+  apply List.ext_getElem
+  · simp
+  · intro i h1 h2
+    simp only [List.getElem_map, List.getElem_range]
+    exact pos_getElem l i (by simpa using h1) hn
+
+theorem gather_range (v : List Nat) : gather v (List.range v.length) = v := by
+  apply List.ext_getElem
+  · simp [gather]
+  · intro i h1 h2
+    simp only [gather, List.getElem_map, List.getElem_range]
+    simp only [gather, List.length_map, List.length_range] at h1
+    simp [List.getD_eq_getElem?_getD, h1]
+
+theorem invPerm_range (n : Nat) : invPerm (List.range n) = List.range n := by
+  unfold invPerm
+  rw [List.length_range]
+  exact (map_pos_self (List.range n) List.nodup_range).trans (by simp)
+
+theorem isPerm_range (n : Nat) : isPerm (List.range n) n = true := by
+  simp [isPerm]
+
+theorem permute_id_isReshape (a r : Arr α) (h : permute a (List.range a.shape.length) = .ok r) :
+    r.shape = a.shape ∧ IsReshapeOf r a := by
+  unfold permute at h
+  rw [if_pos (isPerm_range _)] at h
+  cases h
+  refine ⟨gather_range _, by simp only [gather_range], ?_⟩
+  intro idx hidx
+  simp only [gather_range] at hidx ⊢
+  have hl := inb_length _ _ hidx
+  rw [invPerm_range, ← hl, gather_range, unravel_ravel _ _ hidx]
+
+theorem sortInts_of_sorted : ∀ (l : List Int), l.Pairwise (· < ·) → sortInts l = l
+  | [], _ => rfl
+  | [a], _ => rfl
+  | a :: b :: l, h => by
+      simp only [List.pairwise_cons] at h
+      have ih := sortInts_of_sorted (b :: l) (by simp only [List.pairwise_cons]; exact h.2)
+      simp only [sortInts] at ih ⊢
+      rw [ih]
+      have : a ≤ b := Int.le_of_lt (h.1 b (by simp))
+      simp [insertSorted, this]
+
+
+/-! ### tensor_to_data after tensor_to_funsor -/
+
+/-- The (negative) dims of the axes that survive packing, `off` being the dim of the first axis. -/
+def keptDims : Int → List (Option String × Nat) → List Int
+  | _, [] => []
+  | off, (some _, s) :: l => if s ≠ 1 then off :: keptDims (off + 1) l else keptDims (off + 1) l
+  | off, (none, _) :: l => keptDims (off + 1) l
+
+theorem keptDims_bounds : ∀ (off : Int) (l : List (Option String × Nat)),
+    ∀ d ∈ keptDims off l, off ≤ d ∧ d < off + l.length
+  | _, [], d, h => by simp [keptDims] at h
+  | off, (none, s) :: l, d, h => by
+      have := keptDims_bounds (off + 1) l d (by simpa [keptDims] using h)
+      simp only [List.length_cons]; omega
+  | off, (some n, s) :: l, d, h => by
+      simp only [keptDims] at h
+      simp only [List.length_cons]
+      by_cases hs : s = 1
+      · simp only [hs, ne_eq, not_true_eq_false, if_false] at h
+        have := keptDims_bounds (off + 1) l d h; omega
+      · simp only [ne_eq, hs, not_false_eq_true, if_true, List.mem_cons] at h
+        rcases h with rfl | h
+        · omega
+        · have := keptDims_bounds (off + 1) l d h; omega
+
+theorem keptDims_sorted : ∀ (off : Int) (l : List (Option String × Nat)),
+    (keptDims off l).Pairwise (· < ·)
+  | _, [] => by simp [keptDims]
+  | off, (none, s) :: l => by simpa [keptDims] using keptDims_sorted (off + 1) l
+  | off, (some n, s) :: l => by
+      simp only [keptDims]
+      by_cases hs : s = 1
+      · simpa [hs] using keptDims_sorted (off + 1) l
+      · simp only [ne_eq, hs, not_false_eq_true, if_true, List.pairwise_cons]
+        refine ⟨?_, keptDims_sorted (off + 1) l⟩
+        intro d hd
+        have := keptDims_bounds (off + 1) l d hd; omega
+
+theorem keptDims_length : ∀ (off : Int) (l : List (Option String × Nat)),
+    (keptDims off l).length = (packedSpec l).length
+  | _, [] => rfl
+  | off, (none, s) :: l => by simpa [keptDims, packedSpec] using keptDims_length (off + 1) l
+  | off, (some n, s) :: l => by
+      by_cases hs : s = 1
+      · simpa [keptDims, packedSpec, hs] using keptDims_length (off + 1) l
+      · simpa [keptDims, packedSpec, hs] using keptDims_length (off + 1) l
+
+/-- `name_to_dim` sends the name on axis `j` to dim `off + j`. -/
+def Consistent (n2d : List (String × Int)) (off : Int) (l : List (Option String × Nat)) : Prop :=
+  ∀ (j : Nat) (n : String), (l[j]?).map (·.1) = some (some n) → lookup n n2d = some (off + j)
+
+theorem consistent_tail (n2d : List (String × Int)) (off : Int) (p : Option String × Nat)
+    (l : List (Option String × Nat)) (h : Consistent n2d off (p :: l)) :
+    Consistent n2d (off + 1) l := by
+  intro j n hj
+  have := h (j + 1) n (by simpa using hj)
+  rw [this]; congr 1; push_cast; omega
+
+theorem mapM_lookup_packed (n2d : List (String × Int)) : ∀ (off : Int)
+    (l : List (Option String × Nat)), Consistent n2d off l →
+    ((packedSpec l).map (·.1)).mapM (fun k => lookup k n2d) = some (keptDims off l)
+  | _, [], _ => rfl
+  | off, (none, s) :: l, h => by
+      simpa [packedSpec, keptDims] using mapM_lookup_packed n2d (off + 1) l (consistent_tail _ _ _ _ h)
+  | off, (some n, s) :: l, h => by
+      have ih := mapM_lookup_packed n2d (off + 1) l (consistent_tail _ _ _ _ h)
+      by_cases hs : s = 1
+      · simpa [packedSpec, keptDims, hs] using ih
+      · have h0 : lookup n n2d = some off := by simpa using h 0 n (by simp)
+        simp only [packedSpec, keptDims, ne_eq, hs, not_false_eq_true, if_true, List.map_cons,
+          List.mapM_cons, h0, ih]
+        rfl
+
+theorem scatter_general : ∀ (l : List (Option String × Nat)) (pre : List Nat), AllNamed l →
+    scatterDims ((keptDims (-(l.length : Int)) l).zip ((packedSpec l).map (·.2)))
+      (pre ++ List.replicate l.length 1) = .ok (pre ++ l.map (·.2))
+  | [], pre, _ => by simp [keptDims, packedSpec, scatterDims]
+  | (none, s) :: l, pre, h => by
+      have hs : s = 1 := h (none, s) (by simp) rfl
+      have ih := scatter_general l (pre ++ [1]) (fun p hp => h p (by simp [hp]))
+      have e : (-((l.length + 1 : Nat) : Int)) + 1 = -(l.length : Int) := by push_cast; omega
+      simp only [keptDims, packedSpec, List.length_cons, e, List.replicate_succ, List.map_cons, hs]
+      simpa using ih
+  | (some n, s) :: l, pre, h => by
+      have hl : AllNamed l := fun p hp => h p (by simp [hp])
+      have e : (-((l.length + 1 : Nat) : Int)) + 1 = -(l.length : Int) := by push_cast; omega
+      by_cases hs : s = 1
+      · have ih := scatter_general l (pre ++ [1]) hl
+        simp only [keptDims, packedSpec, List.length_cons, e, hs, ne_eq, not_true_eq_false, if_false,
+          List.replicate_succ, List.map_cons]
+        simpa using ih
+      · have ih := scatter_general l (pre ++ [s]) hl
+        simp only [keptDims, packedSpec, List.length_cons, e, ne_eq, hs, not_false_eq_true, if_true,
+          List.map_cons, List.zip_cons_cons, scatterDims, setNeg]
+        have c : (-((l.length + 1 : Nat) : Int)) < 0 ∧
+            -(-((l.length + 1 : Nat) : Int)) ≤ ((pre ++ List.replicate (l.length + 1) 1).length : Int) := by
+          simp only [List.length_append, List.length_replicate]; push_cast; omega
+        rw [if_pos c]
+        have hpos : (pre ++ List.replicate (l.length + 1) 1).length
+            - (-(-((l.length + 1 : Nat) : Int))).toNat = pre.length := by
+          simp only [List.length_append, List.length_replicate, Int.neg_neg, Int.toNat_natCast]; omega
+        rw [hpos]
+        have hset : (pre ++ List.replicate (l.length + 1) 1).set pre.length s
+            = (pre ++ [s]) ++ List.replicate l.length 1 := by
+          simp [List.replicate_succ]
+        simp only [hset]
+        simpa using ih
+
+theorem scatter_top : ∀ (l : List (Option String × Nat)), AllNamed l →
+    ∀ d0 rest, keptDims (-(l.length : Int)) l = d0 :: rest →
+    ∃ k, k ≤ l.length ∧
+      scatterDims ((keptDims (-(l.length : Int)) l).zip ((packedSpec l).map (·.2)))
+        (List.replicate (-d0).toNat 1) = .ok ((l.map (·.2)).drop k) ∧
+      ∀ s ∈ (l.map (·.2)).take k, s = 1
+  | [], _, d0, rest, hk => by simp [keptDims] at hk
+  | (none, s) :: l, h, d0, rest, hk => by
+      have hs : s = 1 := h (none, s) (by simp) rfl
+      have e : (-((l.length + 1 : Nat) : Int)) + 1 = -(l.length : Int) := by push_cast; omega
+      simp only [keptDims, List.length_cons, e] at hk
+      obtain ⟨k, hk1, hk2, hk3⟩ := scatter_top l (fun p hp => h p (by simp [hp])) d0 rest hk
+      refine ⟨k + 1, by simp; omega, ?_, ?_⟩
+      · simp only [keptDims, packedSpec, List.length_cons, e, List.map_cons, List.drop_succ_cons]
+        exact hk2
+      · intro s' hs'
+        simp only [List.map_cons, List.take_succ_cons, List.mem_cons] at hs'
+        rcases hs' with rfl | hs'
+        · exact hs
+        · exact hk3 s' hs'
+  | (some n, s) :: l, h, d0, rest, hk => by
+      have hl : AllNamed l := fun p hp => h p (by simp [hp])
+      have e : (-((l.length + 1 : Nat) : Int)) + 1 = -(l.length : Int) := by push_cast; omega
+      by_cases hs : s = 1
+      · simp only [keptDims, List.length_cons, e, hs, ne_eq, not_true_eq_false, if_false] at hk
+        obtain ⟨k, hk1, hk2, hk3⟩ := scatter_top l hl d0 rest hk
+        refine ⟨k + 1, by simp; omega, ?_, ?_⟩
+        · simp only [keptDims, packedSpec, List.length_cons, e, hs, ne_eq, not_true_eq_false,
+            if_false, List.map_cons, List.drop_succ_cons]
+          exact hk2
+        · intro s' hs'
+          simp only [List.map_cons, List.take_succ_cons, List.mem_cons] at hs'
+          rcases hs' with rfl | hs'
+          · exact hs
+          · exact hk3 s' hs'
+      · have hd0 : d0 = -((l.length + 1 : Nat) : Int) := by
+          simp only [keptDims, List.length_cons, ne_eq, hs, not_false_eq_true, if_true,
+            List.cons.injEq] at hk
+          exact hk.1.symm
+        refine ⟨0, by simp, ?_, by simp⟩
+        have := scatter_general ((some n, s) :: l) [] h
+        simp only [List.nil_append, List.length_cons] at this
+        rw [hd0]
+        simpa using this
+
+
+/-- `tensor_to_data` unfolded along its success path. -/
+theorem toData_steps (f : Tensor α) (n2d : List (String × Int)) (hne : n2d ≠ [])
+    (hin : f.inputs ≠ []) (hneg : ∀ p ∈ n2d, p.2 < 0)
+    (data1 : Arr α) (h1 : reshape f.data (f.sizes ++ f.outShape) = .ok data1)
+    (unsorted : List Int) (h2 : f.keys.mapM (fun k => lookup k n2d) = some unsorted)
+    (data2 : Arr α)
+    (h3 : permute data1 ((sortInts unsorted).map (fun d => pos d unsorted)
+      ++ List.range' (sortInts unsorted).length f.outShape.length) = .ok data2)
+    (d0 : Int) (rest : List Int) (h4 : sortInts unsorted = d0 :: rest)
+    (bshape : List Nat)
+    (h5 : scatterDims ((sortInts unsorted).zip data2.shape) (List.replicate (-d0).toNat 1)
+      = .ok bshape) :
+    toData f (some n2d) = reshape data2 (bshape ++ f.outShape) := by
+  have e1 : n2d.isEmpty = false := by cases n2d <;> simp_all
+  have e2 : f.inputs.isEmpty = false := by cases hf : f.inputs <;> simp_all
+  have e3 : (n2d.all fun p => decide (p.2 < 0)) = true := by
+    rw [List.all_eq_true]; intro p hp; exact decide_eq_true (hneg p hp)
+  unfold toData
+  simp only [e1, e2, e3, Bool.or_self, Bool.false_eq_true, if_false, Bool.not_true, h1, h2, h3]
+  rw [h4] at h5 ⊢
+  dsimp only
+  rw [h5]
+
+def swapPairs (d : List (Int × String)) : List (String × Int) := d.map fun p => (p.2, p.1)
+
+theorem lookup_mem {κ β : Type} [DecidableEq κ] (k : κ) (v : β) : ∀ (d : List (κ × β)),
+    lookup k d = some v → (k, v) ∈ d
+  | [], h => by simp [lookup] at h
+  | (k', v') :: r, h => by
+      simp only [lookup] at h
+      by_cases hk : k' = k
+      · simp only [hk, if_true, Option.some.injEq] at h; simp [hk, h]
+      · simp only [hk, if_false] at h
+        exact List.mem_cons_of_mem _ (lookup_mem k v r h)
+
+theorem lookup_swap (k : Int) (v : String) : ∀ (d : List (Int × String)),
+    (d.map (·.2)).Nodup → lookup k d = some v → lookup v (swapPairs d) = some k
+  | [], _, h => by simp [lookup] at h
+  | (k', v') :: r, hn, h => by
+      simp only [List.map_cons, List.nodup_cons] at hn
+      simp only [lookup] at h
+      simp only [swapPairs, List.map_cons, lookup]
+      by_cases hk : k' = k
+      · simp only [hk, if_true, Option.some.injEq] at h; simp [hk, h]
+      · simp only [hk, if_false] at h
+        have hmem : v ∈ r.map (·.2) := List.mem_map_of_mem (f := (·.2)) (lookup_mem k v r h)
+        have hv : v' ≠ v := fun e => hn.1 (e ▸ hmem)
+        simp only [hv, if_false]
+        exact lookup_swap k v r hn.2 h
+
+theorem consistent_axisNames (d2n : List (Int × String)) (hinj : (d2n.map (·.2)).Nodup)
+    (bs : List Nat) :
+    Consistent (swapPairs d2n) (-(bs.length : Int)) ((axisNames d2n bs.length).zip bs) := by
+  intro j n hj
+  cases hz : ((axisNames d2n bs.length).zip bs)[j]? with
+  | none => simp [hz] at hj
+  | some z =>
+    rw [hz] at hj
+    simp only [Option.map_some, Option.some.injEq] at hj
+    have := (List.getElem?_zip_eq_some.mp hz).1
+    rw [hj] at this
+    simp only [axisNames, List.getElem?_map] at this
+    cases hr : (List.range bs.length)[j]? with
+    | none => simp [hr] at this
+    | some j' =>
+      have hj' : j' = j := by
+        obtain ⟨hlt, hv⟩ := List.getElem?_eq_some_iff.mp hr
+        rw [List.getElem_range] at hv; exact hv.symm
+      rw [hr, hj'] at this
+      simp only [Option.map_some, Option.some.injEq] at this
+      have := lookup_swap _ n d2n hinj this
+      rw [this]; congr 1; omega
+
+theorem packed_nil_all_one : ∀ (l : List (Option String × Nat)), AllNamed l → packedSpec l = [] →
+    ∀ s ∈ l.map (·.2), s = 1
+  | [], _, _ => by simp
+  | (none, s) :: l, h, hp => by
+      have hs : s = 1 := h (none, s) (by simp) rfl
+      have ih := packed_nil_all_one l (fun p hp => h p (by simp [hp])) (by simpa [packedSpec] using hp)
+      intro s' hs'
+      simp only [List.map_cons, List.mem_cons] at hs'
+      rcases hs' with rfl | hs'
+      · exact hs
+      · exact ih s' hs'
+  | (some n, s) :: l, h, hp => by
+      by_cases hs : s = 1
+      · have ih := packed_nil_all_one l (fun p hp => h p (by simp [hp]))
+          (by simpa [packedSpec, hs] using hp)
+        intro s' hs'
+        simp only [List.map_cons, List.mem_cons] at hs'
+        rcases hs' with rfl | hs'
+        · exact hs
+        · exact ih s' hs'
+      · simp [packedSpec, hs] at hp
+
+theorem prod_drop_ones : ∀ (k : Nat) (l : List Nat), (∀ s ∈ l.take k, s = 1) →
+    prod (l.drop k) = prod l
+  | 0, l, _ => by simp
+  | k + 1, [], _ => by simp
+  | k + 1, a :: l, h => by
+      have ha : a = 1 := h a (by simp)
+      have ih := prod_drop_ones k l (fun s hs => h s (by simp [hs]))
+      simp only [List.drop_succ_cons, prod, ha, Nat.one_mul, ih]
+
+/-- `to_funsor` under the round-trip hypotheses, with its data exposed. -/
+theorem toFunsor_ok (x : Arr α) (bs es : List Nat) (dtype : Option Nat)
+    (d2n : List (Int × String)) (hd : d2n ≠ []) (hneg : ∀ p ∈ d2n, p.1 < 0)
+    (hshape : x.shape = bs ++ es)
+    (hnamed : AllNamed ((axisNames d2n bs.length).zip bs))
+    (hnodup : ((packedSpec ((axisNames d2n bs.length).zip bs)).map (·.1)).Nodup) :
+    ∃ data, reshape x ((packedSpec ((axisNames d2n bs.length).zip bs)).map (·.2) ++ es) = .ok data ∧
+      toFunsor x (some es) dtype (some d2n)
+        = .ok ⟨packedSpec ((axisNames d2n bs.length).zip bs), data, dtype⟩ := by
+  have hlen : (axisNames d2n bs.length).length = bs.length := axisNames_length _ _
+  have hnb : x.shape.length - es.length = bs.length := by simp [hshape]
+  have hzip : (axisNames d2n bs.length).zip x.shape = (axisNames d2n bs.length).zip bs := by
+    rw [hshape]; exact zip_append_right _ _ _ hlen
+  have hsnd : ((axisNames d2n bs.length).zip bs).map (·.2) = bs := by
+    rw [List.map_snd_zip]; omega
+  generalize hl : (axisNames d2n bs.length).zip bs = l at *
+  have hpack : packLoop l [] = packedSpec l := by
+    have := packLoop_spec l [] (by simpa using hnodup); simpa using this
+  have hprod := prod_packed es l hnamed
+  rw [hsnd] at hprod
+  rw [toFunsor_unfold x es dtype d2n hd hneg, hnb, hzip, hpack]
+  simp only [reshape, hshape, hprod, if_true]
+  exact ⟨_, rfl, rfl⟩
+
+/-- **toData_toFunsor_roundtrip.**  For an injective, all-negative, non-empty `dim_to_name` that
+    names every batch axis of size ≠ 1, `to_data(to_funsor(x, output, dim_to_name), inverse map)`
+    succeeds and returns `x` up to leading size-1 batch axes: same row-major buffer, and the shape
+    is `x.shape` with `k` leading 1s dropped. -/
+theorem toData_toFunsor_roundtrip (x : Arr α) (bs es : List Nat) (dtype : Option Nat)
+    (d2n : List (Int × String)) (hd : d2n ≠ []) (hneg : ∀ p ∈ d2n, p.1 < 0)
+    (hinj : (d2n.map (·.2)).Nodup)
+    (hshape : x.shape = bs ++ es)
+    (hnamed : AllNamed ((axisNames d2n bs.length).zip bs))
+    (hnodup : ((packedSpec ((axisNames d2n bs.length).zip bs)).map (·.1)).Nodup) :
+    ∃ f r k, toFunsor x (some es) dtype (some d2n) = .ok f ∧
+      toData f (some (swapPairs d2n)) = .ok r ∧
+      k ≤ bs.length ∧ r.shape = (bs ++ es).drop k ∧ (∀ s ∈ bs.take k, s = 1) ∧
+      IsReshapeOf r x ∧ r.toFlat = x.toFlat := by
+  obtain ⟨data, hdata, hf⟩ := toFunsor_ok x bs es dtype d2n hd hneg hshape hnamed hnodup
+  have hcons := consistent_axisNames d2n hinj bs
+  have hlen : (axisNames d2n bs.length).length = bs.length := axisNames_length _ _
+  have hsnd : ((axisNames d2n bs.length).zip bs).map (·.2) = bs := by
+    rw [List.map_snd_zip]; omega
+  have hll : ((axisNames d2n bs.length).zip bs).length = bs.length := by
+    simp [List.length_zip, hlen]
+  generalize hl : (axisNames d2n bs.length).zip bs = l at *
+  obtain ⟨hdshape, hdre⟩ := reshape_isReshape _ _ _ hdata
+  refine ⟨⟨packedSpec l, data, dtype⟩, ?_⟩
+  by_cases hp : packedSpec l = []
+  · -- nothing survives packing: to_data returns the data as is
+    refine ⟨data, bs.length, hf, ?_, Nat.le_refl _, ?_, ?_, hdre, isReshape_toFlat _ _ hdre⟩
+    · have e1 : (swapPairs d2n).isEmpty = false := by cases d2n <;> simp_all [swapPairs]
+      simp [toData, e1, hp]
+    · rw [hdshape, hp]; simp
+    · have := packed_nil_all_one l hnamed hp
+      rw [hsnd] at this
+      simpa using this
+  · -- general case
+    have hkl := keptDims_length (-(bs.length : Int)) l
+    cases hkd : keptDims (-(bs.length : Int)) l with
+    | nil => rw [hkd] at hkl; cases hq : packedSpec l <;> simp_all
+    | cons d0 rest =>
+      have hsorted := sortInts_of_sorted _ (keptDims_sorted (-(bs.length : Int)) l)
+      have hnd : (keptDims (-(bs.length : Int)) l).Nodup :=
+        (keptDims_sorted (-(bs.length : Int)) l).imp (fun h => Int.ne_of_lt h)
+      let f : Tensor α := ⟨packedSpec l, data, dtype⟩
+      have hout : f.outShape = es := by
+        simp only [f, Tensor.outShape, hdshape]
+        exact List.drop_left' (by simp)
+      have hsizes : f.sizes = (packedSpec l).map (·.2) := rfl
+      -- step 1: the no-op reshape
+      have h1 : ∃ data1, reshape f.data (f.sizes ++ f.outShape) = .ok data1 := by
+        simp only [reshape, hout, hsizes, f, hdshape, if_true]; exact ⟨_, rfl⟩
+      obtain ⟨data1, h1⟩ := h1
+      obtain ⟨h1s, h1r⟩ := reshape_isReshape _ _ _ h1
+      -- step 2: the dims
+      have h2 : f.keys.mapM (fun k => lookup k (swapPairs d2n))
+          = some (keptDims (-(bs.length : Int)) l) := by
+        exact mapM_lookup_packed (swapPairs d2n) (-(bs.length : Int)) l hcons
+      -- step 3: the permutation is the identity
+      have hperm : (sortInts (keptDims (-(bs.length : Int)) l)).map
+            (fun d => pos d (keptDims (-(bs.length : Int)) l))
+          ++ List.range' (sortInts (keptDims (-(bs.length : Int)) l)).length f.outShape.length
+          = List.range (f.sizes ++ f.outShape).length := by
+        rw [hsorted, map_pos_self _ hnd, hkl, hout, hsizes]
+        rw [List.range_eq_range', List.range_eq_range', List.length_append, List.length_map]
+        have := @List.range'_append_1 0 (packedSpec l).length es.length
+        simpa using this
+      have h3 : ∃ data2, permute data1 (List.range data1.shape.length) = .ok data2 := by
+        simp only [permute, isPerm_range, if_true]; exact ⟨_, rfl⟩
+      obtain ⟨data2, h3⟩ := h3
+      obtain ⟨h3s, h3r⟩ := permute_id_isReshape _ _ h3
+      have h3' : permute data1 ((sortInts (keptDims (-(bs.length : Int)) l)).map
+            (fun d => pos d (keptDims (-(bs.length : Int)) l))
+          ++ List.range' (sortInts (keptDims (-(bs.length : Int)) l)).length f.outShape.length)
+          = .ok data2 := by rw [hperm, ← h1s]; exact h3
+      -- step 4: scattering the sizes into the batch shape
+      have hkd' : keptDims (-(l.length : Int)) l = d0 :: rest := by rw [hll]; exact hkd
+      obtain ⟨k, hk1, hk2, hk3⟩ := scatter_top l hnamed d0 rest hkd'
+      rw [hll] at hk2 hk1
+      rw [hsnd] at hk2 hk3
+      have h4 : sortInts (keptDims (-(bs.length : Int)) l) = d0 :: rest := by rw [hsorted, hkd]
+      have h5 : scatterDims ((sortInts (keptDims (-(bs.length : Int)) l)).zip data2.shape)
+          (List.replicate (-d0).toNat 1) = .ok (bs.drop k) := by
+        rw [hsorted, h3s, h1s, hsizes, hout, zip_append_right _ _ _ (by rw [hkl]; simp)]
+        exact hk2
+      -- step 5: the final reshape
+      have hprodeq : prod (bs.drop k ++ f.outShape) = prod data2.shape := by
+        rw [h3s, h1s, hsizes, hout, prod_append, prod_drop_ones k bs hk3, ← prod_append,
+          prod_packed es l hnamed, hsnd]
+      have h6 : ∃ r, reshape data2 (bs.drop k ++ f.outShape) = .ok r := by
+        simp only [reshape, hprodeq, if_true]; exact ⟨_, rfl⟩
+      obtain ⟨r, h6⟩ := h6
+      obtain ⟨h6s, h6r⟩ := reshape_isReshape _ _ _ h6
+      have hnegs : ∀ p ∈ swapPairs d2n, p.2 < 0 := by
+        intro p hp
+        simp only [swapPairs, List.mem_map] at hp
+        obtain ⟨q, hq, rfl⟩ := hp
+        exact hneg q hq
+      have hne : swapPairs d2n ≠ [] := by cases d2n <;> simp_all [swapPairs]
+      have hre : IsReshapeOf r x :=
+        isReshape_trans _ _ _ hdre (isReshape_trans _ _ _ h1r (isReshape_trans _ _ _ h3r h6r))
+      refine ⟨r, k, hf, ?_, hk1, ?_, hk3, hre, isReshape_toFlat _ _ hre⟩
+      · rw [toData_steps f (swapPairs d2n) hne hp hnegs data1 h1 _ h2 data2 h3' d0 rest h4 _ h5]
+        exact h6
+      · rw [h6s, hout]; exact (List.drop_append_of_le_length hk1).symm
+
+
 end FV.Props.C19
